@@ -305,6 +305,16 @@ def install(E):
         I.cells[cell.key] = v
         I.events.append(('cell_write', cell.key, I.term_of(v), e['loc']))
         return old
+    def cell_replace_with(I, args, e, c):
+        # cell.replace_with(|current| f(current)): one mutable borrow, the new content is f(old), the old content is handed back
+        cell, f = args
+        old = cell_content(I, cell, e, e['ty'])
+        I.events.append(('cell_borrow', cell.key if isinstance(cell, VCell) else None, True, e['loc']))
+        new = I.apply(f, [old], e['loc'], e)
+        I.cells[cell.key] = new
+        I.events.append(('cell_write', cell.key, I.term_of(new), e['loc']))
+        return old
+    S['std::cell::RefCell::replace_with'] = cell_replace_with
     def cell_new(I, args, e, c):
         k = ('newcell', e['loc'])
         I.cells[k] = args[0]
